@@ -10,7 +10,7 @@ import (
 
 func init() {
 	registerProperty(&Property{
-		ID: "C19",
+		ID:          "C19",
 		Explanation: "Decides structural necessary conditions of race freedom: (R1) a lockset analysis over every function of package exec: each read or write of a field in the guarded-by table (confirmed by reading and frozen here) happens with its guard held on every path — Task.{state,err,waitc,subs,consecutiveLost} under the task's own mutex; the executors', worker's, slice machine's, session's, caches' and status maps under their mu — and the functions documented as 'caller holds the lock' (Task.Broadcast, Task.Wait, invDiskCache.init, evalStatus.lockedPrint) are only called with it held; (R2) the fields owned by the machine manager's event loop are touched by no other goroutine (C14-R2 for writes; reads listed here); (R3) the per-machine once-only RPCs Worker.Compile and Worker.CommitCombiner are issued only inside their once.Map guards; (R4 = C03-R1) a task is handed to the executor by exactly one evaluation, under the task lock. Not decided: deadlock freedom, results of concurrent runs, races outside the table (what the race detector would find dynamically).",
 		Rules: []Rule{
 			{ID: "C19-R1", Doc: "guarded-by table respected on every path (lockset)", Run: c19r1},
@@ -65,9 +65,9 @@ var guardedBy = map[string]string{
 
 // functions entered with a lock held ("caller holds the lock").
 var lockRequired = map[string]string{
-	"exec.(*Task).Broadcast":        "self",
-	"exec.(*Task).Wait":             "self",
-	"exec.(*invDiskCache).init":     "mu",
+	"exec.(*Task).Broadcast":         "self",
+	"exec.(*Task).Wait":              "self",
+	"exec.(*invDiskCache).init":      "mu",
 	"exec.(*evalStatus).lockedPrint": "mu",
 }
 
